@@ -36,6 +36,9 @@ struct Caller {
     result: Arc<Mutex<Option<Result<Record, String>>>>,
     judged: bool,
     cmd_handled: bool,
+    /// the task awaiting get_record_from_network (aborted by Step::Cancel = the caller gives up)
+    handle: Option<tokio::task::JoinHandle<()>>,
+    cancelled: bool,
 }
 
 struct QueryModel {
@@ -347,7 +350,7 @@ impl<'a> World<'a> {
     /// The per-caller oracle, applied once when a caller's future has completed.
     fn judge_finished_callers(&mut self) {
         for c in 0..self.callers.len() {
-            if self.callers[c].judged {
+            if self.callers[c].judged || self.callers[c].cancelled {
                 continue;
             }
             let res = self.callers[c].result.lock().unwrap().clone();
@@ -366,6 +369,9 @@ impl<'a> World<'a> {
                 Err(e) => {
                     self.rep.log(format!("caller {c} -> Err({e})"));
                     self.rep.probe("caller_got_error");
+                    if e.contains("InternalMsgChannelDropped") && self.queries[qi].callers.iter().any(|o| self.callers[*o].cancelled) {
+                        self.rep.probe("caller_failed_with_channel_error_because_a_co_waiting_caller_was_cancelled");
+                    }
                 }
                 Ok(r) => {
                     let cls = self.classify(&r);
@@ -508,16 +514,18 @@ impl<'a> World<'a> {
                     is_register,
                 };
                 let result = Arc::new(Mutex::new(None));
-                self.callers.push(Caller { quorum: qv, target, tag, attached: vec![], result: result.clone(), judged: false, cmd_handled: false });
                 let net = self.network.clone();
                 let key = self.key.clone();
-                tokio::spawn(async move {
+                let res2 = result.clone();
+                let result = res2.clone();
+                let handle = tokio::spawn(async move {
                     let r = net.get_record_from_network(key, &cfg).await;
                     *result.lock().unwrap() = Some(r.map_err(|e: NetworkError| {
                         let s = format!("{e:?}");
                         s.split(['(', '{', ' ']).next().unwrap_or("").to_string()
                     }));
                 });
+                self.callers.push(Caller { quorum: qv, target, tag, attached: vec![], result: res2, judged: false, cmd_handled: false, handle: Some(handle), cancelled: false });
                 self.rep.ops += 1;
                 self.rep.log(format!("call: caller {c} quorum={qv} target={target:?} retry={retry}"));
                 self.drain().await;
@@ -584,6 +592,9 @@ impl<'a> World<'a> {
                 // every caller attached to it has exactly one outcome now (a retrying caller moves on to a new query)
                 let attached = self.queries[qi].callers.clone();
                 for c in attached {
+                    if self.callers[c].cancelled {
+                        continue;
+                    }
                     let done = self.callers[c].result.lock().unwrap().is_some();
                     let moved_on = self.callers[c].attached.last() != Some(&qi);
                     let retrying = hooks::gates_pending().len() > 0 || tokio::runtime::Handle::current().metrics().num_alive_tasks() > 0;
@@ -596,6 +607,25 @@ impl<'a> World<'a> {
                 simkit::rt::advance(Duration::from_secs(*secs as u64)).await;
                 self.rep.sim_time_ms += *secs as u64 * 1000;
                 self.rep.log(format!("advance {secs}s"));
+                self.drain().await;
+            }
+            Step::Cancel { caller } => {
+                if self.callers.is_empty() {
+                    return;
+                }
+                let c = *caller as usize % self.callers.len();
+                let has_outcome = self.callers[c].result.lock().unwrap().is_some();
+                if has_outcome || self.callers[c].cancelled {
+                    self.rep.log(format!("cancel: caller {c} already finished"));
+                    return;
+                }
+                if let Some(h) = self.callers[c].handle.take() {
+                    h.abort();
+                }
+                self.callers[c].cancelled = true;
+                self.rep.fault("caller_cancelled");
+                self.rep.ops += 1;
+                self.rep.log(format!("cancel: caller {c} gives up (its future is dropped)"));
                 self.drain().await;
             }
             Step::Settle => {
@@ -630,7 +660,7 @@ impl<'a> World<'a> {
                 let done = self.callers[c].result.lock().unwrap().is_some();
                 let last_q_done = self.callers[c].attached.last().map(|q| self.queries[*q].done).unwrap_or(false);
                 let alive = tokio::runtime::Handle::current().metrics().num_alive_tasks();
-                if self.callers[c].cmd_handled && last_q_done && !done && hooks::gates_pending().is_empty() && alive == 0 {
+                if self.callers[c].cmd_handled && !self.callers[c].cancelled && last_q_done && !done && hooks::gates_pending().is_empty() && alive == 0 {
                     self.rep.violate("C05", "caller_without_outcome_after_terminal_event", &[], format!("caller {c} never received an outcome"));
                 }
             }
